@@ -1,4 +1,5 @@
 """C06 — a fixed random_state makes results bit-for-bit reproducible on any schedule."""
+REGEN = ("constants", "registry", "seeded")
 import json
 import os
 import subprocess
@@ -12,9 +13,6 @@ from common import Driver, VERIF, REPO
 
 WORKER = os.path.join(VERIF, "harness", "c06_worker.py")
 
-
-def regen(ctx):
-    regen_mod.regen(ctx)
 
 
 def configs(thorough):
